@@ -111,6 +111,31 @@ static void check_raw(u64 raw, long long &ev)
         bool same = ((raw ^ 1) % GP) == canon;
         if (Goldilocks::equal(e, f) != same) rep().viol("C15.wrong.equal.diff-class", cs_, "");
     }
+    // equality against the words at boundary DISTANCES from this one (x +- 1, 2^32-1, 2^32, 2^63, p, ... modulo 2^64): a comparison
+    // that works on the difference of the raw words meets every distance at which the residues do or do not coincide
+    {
+        static const u64 DIST[] = {1, 2, 0xFFFFFFFEULL, 0xFFFFFFFFULL, 0x100000000ULL, 0x100000001ULL, 0x7FFFFFFFFFFFFFFFULL, 0x8000000000000000ULL, GP - 1, GP, GP + 1, 0xFFFFFFFFFFFFFFFFULL};
+        for (u64 d : DIST)
+            for (int sgn = 0; sgn < 2; sgn++)
+            {
+                E f;
+                f.fe = sgn ? raw - d : raw + d;
+                bool same = (f.fe % GP) == canon;
+                ev++;
+                if (Goldilocks::equal(e, f) != same || (e == f) != same || Goldilocks::equal(f, e) != same)
+                {
+                    rep().viol("C15.wrong.equal.distance", cs_, fmt("equal(%s, %s) is %s but the residues %s", hex(raw).c_str(), hex(f.fe).c_str(), same ? "false" : "true", same ? "coincide" : "differ"));
+                    break;
+                }
+            }
+    }
+    // every radix GMP writes (2..62) and the upper-case forms (-2..-36): the text must be what GMP prints for the canonical value
+    for (int radix : {37, 50, 62, -16, -36})
+    {
+        std::string t = Goldilocks::toString(e, radix);
+        ev++;
+        if (t != mz(canon).get_str(radix)) { rep().viol("C15.wrong.toString.radix", cs_ + fmt(" radix=%d", radix), "text differs from GMP's for the canonical value: " + t.substr(0, 80)); break; }
+    }
     // toString in a few radices, round trip through fromString
     for (int radix : {10, 16, 8, 2, 36})
     {
